@@ -34,41 +34,42 @@ type Obligation struct {
 }
 
 type Engine struct {
-	curDirect     bool     // the function being verified carries the run's own property tag (not only the borrowed one)
-	alsoProp      string   // contracts and clauses of this property are part of the run as well (C14 runs over the C10 contracts)
-	noInv         []string // parameters of the function being verified that are exempt from type invariants
-	catClosedMemo map[string]bool
-	repo          string
-	fset          *token.FileSet
-	pkgs          map[string]*packages.Package
-	cs            *ContractSet
-	fresher       Fresher
-	nextObj       int
-	obls          []*Obligation
-	funcDecls     map[string]*ast.FuncDecl
-	funcPkg       map[string]*packages.Package
-	langs         *LangEnv
-	trusted       map[string]bool
-	havocked      map[string]bool
-	rejected      map[string]string // function -> reason
-	verified      []string
-	notes         []string
-	globalsRO     map[types.Object]bool
-	typeTags      map[string]int64
-	usedLemmas    map[string]bool
-	usedContracts map[string]bool
-	langUsed      map[string]bool
-	globalInit    map[types.Object]ast.Expr
-	cvObj         int
-	effCache      map[string]*Contract
-	prop          string // property being checked (clauses tagged {Cxx} apply only to it)
-	genInfo       map[string]*genInfo
+	curDirect      bool     // the function being verified carries the run's own property tag (not only the borrowed one)
+	alsoProp       string   // contracts and clauses of this property are part of the run as well (C14 runs over the C10 contracts)
+	noInv          []string // parameters of the function being verified that are exempt from type invariants
+	catClosedMemo  map[string]bool
+	repo           string
+	fset           *token.FileSet
+	pkgs           map[string]*packages.Package
+	cs             *ContractSet
+	fresher        Fresher
+	nextObj        int
+	obls           []*Obligation
+	funcDecls      map[string]*ast.FuncDecl
+	funcPkg        map[string]*packages.Package
+	langs          *LangEnv
+	trusted        map[string]bool
+	havocked       map[string]bool
+	havockedImpure map[string]bool   // callees without contract or model that are not taken to be pure
+	rejected       map[string]string // function -> reason
+	verified       []string
+	notes          []string
+	globalsRO      map[types.Object]bool
+	typeTags       map[string]int64
+	usedLemmas     map[string]bool
+	usedContracts  map[string]bool
+	langUsed       map[string]bool
+	globalInit     map[types.Object]ast.Expr
+	cvObj          int
+	effCache       map[string]*Contract
+	prop           string // property being checked (clauses tagged {Cxx} apply only to it)
+	genInfo        map[string]*genInfo
 }
 
 func NewEngine(repo string) *Engine {
 	e := &Engine{repo: repo, pkgs: map[string]*packages.Package{}, cs: NewContractSet(),
 		funcDecls: map[string]*ast.FuncDecl{}, funcPkg: map[string]*packages.Package{},
-		trusted: map[string]bool{}, havocked: map[string]bool{}, rejected: map[string]string{},
+		trusted: map[string]bool{}, havocked: map[string]bool{}, havockedImpure: map[string]bool{}, rejected: map[string]string{},
 		globalsRO: map[types.Object]bool{}, usedLemmas: map[string]bool{}, usedContracts: map[string]bool{}, langUsed: map[string]bool{},
 		langs: NewLangEnv(), genInfo: map[string]*genInfo{}, effCache: map[string]*Contract{}}
 	e.langs.Resolve = e.resolveLang
